@@ -20,6 +20,24 @@ class ProbeEmitter:
         a = out.append
         get = "%s.%s()" % (view, name)
         a('%s{ long o_ = (long)in.num(), e_ = (long)in.num(); (void)o_;' % ind)
+        if on_level:
+            # r_: the cursor position this member requires (end of the previous non-constant field / block start)
+            a('%s  long r_ = (long)in.num(); (void)r_;' % ind)
+            wr = [("plain", "c_"), ("dont_move", "::sbepp::cursor_ops::dont_move(c_)"), ("init_dont_move", "::sbepp::cursor_ops::init_dont_move(c_)")]
+            cdecl = "::sbepp::cursor<unsigned char> c_; c_.pointer() = p.base + r_;"
+            if node.kind == "scalar":
+                for wn, w in wr:
+                    a('%s  p.op("field:cursor-%s-get", e_, [&] { %s p.sink += ::drv::bits_of(%s.%s(%s)); });' % (ind, wn, cdecl, view, name, w))
+                    a('%s  p.op("field:cursor-%s-set", e_, [&] { %s using V_ = typename std::decay<decltype(%s)>::type; %s.%s(V_{}, %s); });'
+                      % (ind, wn, cdecl, get, view, name, w))
+                    a('%s  p.op("field:cursor-%s-set_by_tag", e_, [&] { %s using V_ = typename std::decay<decltype(%s)>::type; ::sbepp::set_by_tag<%s::%s>(%s, V_{}, %s); });'
+                      % (ind, wn, cdecl, get, tagpath, name, view, w))
+            else:
+                for wn, w in wr + [("init", "::sbepp::cursor_ops::init(c_)")]:
+                    a('%s  p.op("%s:cursor-%s-view-use", e_, [&] { %s auto v_ = %s.%s(%s); p.sink += ::sbepp::size_bytes(v_); %s });'
+                      % (ind, node.kind, wn, cdecl, view, name, w,
+                         "for(auto x_ : v_) p.sink += (unsigned char)x_;" if node.kind == "array" else ""))
+            a('%s  p.op("member:cursor-skip", e_, [&] { %s %s.%s(::sbepp::cursor_ops::skip(c_)); p.sink += (::drv::u64)c_.pointer(); });' % (ind, cdecl, view, name))
         if node.kind == "scalar":
             a('%s  p.op("field:get", e_, [&] { p.sink += ::drv::bits_of(%s); });' % (ind, get))
             a('%s  p.op("field:get_by_tag", e_, [&] { p.sink += ::drv::bits_of(::sbepp::get_by_tag<%s::%s>(%s)); });' % (ind, tagpath, name, view))
@@ -74,6 +92,11 @@ class ProbeEmitter:
             a('%s  typename std::decay<decltype(%s.%s())>::type %s; using N_ = typename decltype(%s)::size_type;' % (ind, view, g.name, gv, gv))
             a('%s  if(p.op("group:view", gh_, [&] { %s = %s.%s(); })) {' % (ind, gv, view, g.name))
             a('%s    p.op("group:view-by-tag", gh_, [&] { auto g2_ = ::sbepp::get_by_tag<%s>(%s); p.sink += (::drv::u64)::sbepp::addressof(g2_); });' % (ind, gtag, view))
+            for wn, w in (("plain", "c_"), ("dont_move", "::sbepp::cursor_ops::dont_move(c_)"), ("init", "::sbepp::cursor_ops::init(c_)"), ("init_dont_move", "::sbepp::cursor_ops::init_dont_move(c_)")):
+                a('%s    p.op("group:cursor-%s-view-use", gh_, [&] { ::sbepp::cursor<unsigned char> c_; c_.pointer() = p.base + gs_; auto g4_ = %s.%s(%s); p.sink += g4_.size(); });'
+                  % (ind, wn, view, g.name, w))
+            a('%s    p.op("group:cursor-skip", ge_, [&] { ::sbepp::cursor<unsigned char> c_; c_.pointer() = p.base + gs_; %s.%s(::sbepp::cursor_ops::skip(c_)); p.sink += (::drv::u64)c_.pointer(); });'
+              % (ind, view, g.name))
             a('%s    p.op("group:size", gh_, [&] { p.sink += %s.size() + %s.empty(); });' % (ind, gv, gv))
             a('%s    p.op("group:header", gh_, [&] { auto h_ = ::sbepp::get_header(%s); p.sink += ::drv::bits_of(h_.blockLength()) + ::drv::bits_of(h_.numInGroup()); });' % (ind, gv))
             a('%s    p.op("group:resize-same", gh_, [&] { %s.resize((N_)cnt_); });' % (ind, gv))
@@ -106,6 +129,11 @@ class ProbeEmitter:
             a('%s{ long ds_ = (long)in.num(), dp_ = (long)in.num(), de_ = (long)in.num();' % ind)
             a('%s  typename std::decay<decltype(%s.%s())>::type %s; using L_ = typename decltype(%s)::size_type; using E_ = typename decltype(%s)::value_type;' % (ind, view, d.name, dv, dv, dv))
             a('%s  if(p.op("data:view", ds_, [&] { %s = %s.%s(); })) {' % (ind, dv, view, d.name))
+            for wn, w in (("plain", "c_"), ("dont_move", "::sbepp::cursor_ops::dont_move(c_)"), ("init", "::sbepp::cursor_ops::init(c_)"), ("init_dont_move", "::sbepp::cursor_ops::init_dont_move(c_)")):
+                a('%s    p.op("data:cursor-%s-view-use", de_, [&] { ::sbepp::cursor<unsigned char> c_; c_.pointer() = p.base + ds_; auto d4_ = %s.%s(%s); for(auto x_ : d4_) p.sink += (unsigned char)x_; });'
+                  % (ind, wn, view, d.name, w))
+            a('%s    p.op("data:cursor-skip", de_, [&] { ::sbepp::cursor<unsigned char> c_; c_.pointer() = p.base + ds_; %s.%s(::sbepp::cursor_ops::skip(c_)); p.sink += (::drv::u64)c_.pointer(); });'
+              % (ind, view, d.name))
             a('%s    p.op("data:size", dp_, [&] { p.sink += %s.size() + %s.empty(); });' % (ind, dv, dv))
             a('%s    p.op("data:size_bytes", dp_, [&] { p.sink += ::sbepp::size_bytes(%s); });' % (ind, dv))
             a('%s    p.op("data:iterate", de_, [&] { for(auto x_ : %s) p.sink += (unsigned char)x_; });' % (ind, dv))
@@ -131,8 +159,8 @@ class ProbeEmitter:
         self._skippers[key] = name
         body = ['static void skip_level_tokens_%s(::drv::In& in)\n{' % name]
 
-        def node(n):
-            body.append('  in.num(); in.num();')
+        def node(n, top=False):
+            body.append('  in.num(); in.num();' + (' in.num();' if top else ''))
             if n.kind == "composite":
                 for m in n.members:
                     if m.node.kind != "const":
@@ -140,7 +168,7 @@ class ProbeEmitter:
 
         for f in rlevel.fields:
             if f.node.kind != "const":
-                node(f.node)
+                node(f.node, True)
         for g in rlevel.groups:
             sub = self.skipper(g.level)
             body.append('  { in.num(); in.num(); in.num(); auto c_ = in.num(); for(::drv::u64 i_ = 0; i_ < c_; i_++) { in.num(); in.num(); in.num(); skip_level_tokens_%s(in); } }' % sub)
@@ -249,16 +277,20 @@ def driver_source(schema, rmsgs, top_header):
 def extent_tokens(rmsg, placed):
     t = ["%x" % rmsg.header.size, "%x" % placed.end]
 
-    def node(n, off):
+    def node(n, off, req=None):
         t.extend(["%x" % off, "%x" % (off + n.size)])
+        if req is not None:
+            t.append("%x" % req)
         if n.kind == "composite":
             for m in n.members:
                 if m.node.kind != "const":
                     node(m.node, off + m.offset)
 
     def level(pl):
+        prev_end = pl.block_start
         for pf in pl.fields:
-            node(pf.member.node, pf.off)
+            node(pf.member.node, pf.off, prev_end)
+            prev_end = pf.off + pf.member.node.size
         for pg in pl.groups:
             t.extend(["%x" % pg.start, "%x" % (pg.start + pg.hdr), "%x" % pg.end, "%x" % pg.n])
             for pe in pg.entries:
